@@ -1,4 +1,4 @@
-CONSTANTS KFSkip = {}  Impl = "checked"
+CONSTANTS KFSkip = {}  Impl = "checked"  Big = FALSE
 SPECIFICATION Spec
 CONSTRAINT JudgeOnly
 INVARIANT JudgeOK
